@@ -63,7 +63,8 @@ func (cache *CacheLFU) GetCount(key string) (int, error) {
 
 func (cache *CacheLFU) Flush() {
 	clear(cache.keys)
-	clear(cache.entries)
+	// clear() on a slice only zeroes its elements; the heap must become empty.
+	cache.entries = cache.entries[:0]
 }
 
 func (cache *CacheLFU) Len() int {
